@@ -139,31 +139,87 @@ func (b *BinaryExpression) SQL() string {
 	if b == nil {
 		return ""
 	}
-	left := exprSQL(b.Left)
-	right := exprSQL(b.Right)
-	op := b.Operator
+	// A chain such as a + b + c + ... is a left-deep tree. Building each level from
+	// the finished text of its left operand copies that text once per level, which
+	// is quadratic in the length of the chain. Every level's text has the shape
+	// prefix + left + tail, so walk down the left spine and write each part once.
+	spine := []*BinaryExpression{b}
+	for {
+		next, ok := spine[len(spine)-1].Left.(*BinaryExpression)
+		if !ok || next == nil {
+			break
+		}
+		spine = append(spine, next)
+	}
+	var sb strings.Builder
+	for _, e := range spine {
+		sb.WriteString(e.sqlPrefix())
+	}
+	sb.WriteString(exprSQL(spine[len(spine)-1].Left))
+	for i := len(spine) - 1; i >= 0; i-- {
+		spine[i].writeSQLTail(&sb)
+	}
+	return sb.String()
+}
+
+// sqlOperator returns the operator as written and in upper case.
+func (b *BinaryExpression) sqlOperator() (op, upperOp string) {
+	op = b.Operator
 	if b.CustomOp != nil {
 		op = b.CustomOp.String()
 	}
+	return op, strings.ToUpper(op)
+}
 
-	upperOp := strings.ToUpper(op)
+// sqlPrefix is what comes before the left operand: only a negated expression
+// that is not one of the NOT LIKE forms is wrapped as NOT (...).
+func (b *BinaryExpression) sqlPrefix() string {
+	_, upperOp := b.sqlOperator()
+	if upperOp == "IS NULL" || upperOp == "IS NOT NULL" || !b.Not {
+		return ""
+	}
+	switch upperOp {
+	case "LIKE", "ILIKE", "SIMILAR TO":
+		return ""
+	}
+	return "NOT ("
+}
+
+// writeSQLTail writes what follows the left operand.
+func (b *BinaryExpression) writeSQLTail(sb *strings.Builder) {
+	op, upperOp := b.sqlOperator()
 
 	// Handle IS NULL / IS NOT NULL (right side is NULL literal)
 	if upperOp == "IS NULL" || upperOp == "IS NOT NULL" {
-		return fmt.Sprintf("%s %s", left, upperOp)
+		sb.WriteByte(' ')
+		sb.WriteString(upperOp)
+		return
 	}
+
+	right := exprSQL(b.Right)
 
 	// Handle special operators like LIKE, ILIKE, SIMILAR TO
 	if b.Not {
 		switch upperOp {
 		case "LIKE", "ILIKE", "SIMILAR TO":
-			return fmt.Sprintf("%s NOT %s %s", left, upperOp, right)
+			sb.WriteString(" NOT ")
+			sb.WriteString(upperOp)
+			sb.WriteByte(' ')
+			sb.WriteString(right)
 		default:
-			return fmt.Sprintf("NOT (%s %s %s)", left, op, right)
+			sb.WriteByte(' ')
+			sb.WriteString(op)
+			sb.WriteByte(' ')
+			sb.WriteString(right)
+			sb.WriteByte(')')
 		}
+		return
 	}
 
-	return fmt.Sprintf("%s %s %s", left, op, right)
+	sb.WriteByte(' ')
+	sb.WriteString(op)
+	sb.WriteByte(' ')
+	sb.WriteString(right)
 }
 
 func (u *UnaryExpression) SQL() string {
@@ -398,11 +454,14 @@ func (a *ArraySubscriptExpression) SQL() string {
 	if a == nil {
 		return ""
 	}
-	s := exprSQL(a.Array)
+	var sb strings.Builder
+	sb.WriteString(exprSQL(a.Array))
 	for _, idx := range a.Indices {
-		s += "[" + exprSQL(idx) + "]"
+		sb.WriteByte('[')
+		sb.WriteString(exprSQL(idx))
+		sb.WriteByte(']')
 	}
-	return s
+	return sb.String()
 }
 
 func (a *ArraySliceExpression) SQL() string {
